@@ -1,5 +1,6 @@
 (* Keys/Gap.v — executable model of address issuing, address records and restore-time discovery:
-     masswallet/keystore/addrmgr.go   nextAddresses (gap rule, `index` map keyed by child number),
+     masswallet/keystore/addrmgr.go   nextAddresses (gap rule, `index` map: keyed by (branch, child number) since
+                                      the repair 314e4a7, by the child number alone before — switch fx),
                                       updateManagedAddress
      masswallet/keystore/manager.go   createManagerKeyScope (the discovery scan of an import, safeUint32Add,
                                       hdPath hints), ImportKeystoreWithMnemonic / ImportKeystore (hint 0 -> 1),
@@ -45,15 +46,22 @@ Definition ks_empty : kstate := {| ks_next_e := 0; ks_next_i := 0; ks_pubs := []
 Definition idx_lookup (l : list (N * bool)) (i : N) : option bool :=
   match find (fun e => fst e =? i) l with Some e => Some (snd e) | None => None end.
 
-(* what the gap window learns about child number i: the used flag of whichever address the
-   index map holds under i; a hole is skipped *)
-Definition idx_used (l : list (N * bool)) (used : bool -> N -> bool) (i : N) : bool :=
-  match idx_lookup l i with Some br => used br i | None => false end.
+(* fx = true: the repaired code (/repo commit 314e4a7: the index map is keyed by (branch, child
+   index) and the external window asks for the external entry); fx = false: the code as found
+   (keyed by the child index alone, whichever branch was written last) *)
+Definition idx_lookup_br (fx : bool) (l : list (N * bool)) (br : bool) (i : N) : option bool :=
+  if fx then (if existsb (fun e => (fst e =? i) && Bool.eqb (snd e) br) l then Some br else None)
+  else idx_lookup l i.
 
-Fixpoint window_used (l : list (N * bool)) (used : bool -> N -> bool) (start : N) (len : nat) : bool :=
+(* what the external gap window learns about child number i: the used flag of the address the
+   index map holds for it; a hole is skipped *)
+Definition idx_used (fx : bool) (l : list (N * bool)) (used : bool -> N -> bool) (i : N) : bool :=
+  match idx_lookup_br fx l false i with Some br => used br i | None => false end.
+
+Fixpoint window_used (fx : bool) (l : list (N * bool)) (used : bool -> N -> bool) (start : N) (len : nat) : bool :=
   match len with
   | O => false
-  | S n => idx_used l used start || window_used l used (start + 1) n
+  | S n => idx_used fx l used start || window_used fx l used (start + 1) n
   end.
 
 Inductive kerr := EGapLimit | EExceed | EUnusedLimit | EOther.
@@ -62,13 +70,13 @@ Arguments KOk {A} a. Arguments KErr {A} e.
 
 (* AddrManager.nextAddresses(internal=false, numAddresses=1) + updateManagedAddress.
    (hdkeychain.Child is assumed never to answer ErrInvalidChild: probability 2^-127 per index.) *)
-Definition next_addresses (gap : N) (used : bool -> N -> bool) (st : kstate) : kres (N * kstate) :=
+Definition next_addresses (fx : bool) (gap : N) (used : bool -> N -> bool) (st : kstate) : kres (N * kstate) :=
   let n := ks_next_e st in
   if max_addresses <? u32 (1 + n) then KErr EExceed
   else if gap <? 1 then KErr EGapLimit
   else if negb (n =? 0) && (gap <? u32 (n + 1)) &&
           (let start := u32 (n + 1 - gap - 1) in
-           negb (window_used (ks_index st) used start (N.to_nat (n - start))))
+           negb (window_used fx (ks_index st) used start (N.to_nat (n - start))))
        then KErr EGapLimit
   else if hardened_start <=? n then KErr EOther   (* a hardened child of a public (locked) account key *)
   else KOk (n, {| ks_next_e := n + 1; ks_next_i := ks_next_i st;
@@ -110,8 +118,10 @@ Definition restore_branch (fuel : nat) (gap hint : N) (used : N -> bool) : optio
 Definition seqN (n : N) : list N := map N.of_nat (seq 0 (N.to_nat n)).
 
 (* ImportKeystoreWithMnemonic / ImportKeystore: an external hint 0 is replaced by 1.
-   The index map right after the import is built inside the importing transaction, where colliding
-   child numbers are resolved in Go map order; the model takes the order of a later reload. *)
+   With the code as found (fx = false) the index map right after the import is built inside the
+   importing transaction, where colliding child numbers are resolved in Go map order; the model
+   takes the order of a later reload (the harness restarts before it asks).  With the repaired
+   code no two entries collide and the order is irrelevant. *)
 Definition ks_restore (fuel : nat) (gap hint_e hint_i : N) (used : bool -> N -> bool) : option kstate :=
   let he := if hint_e =? 0 then 1 else hint_e in
   match restore_branch fuel gap hint_i (used true), restore_branch fuel gap he (used false) with
@@ -253,9 +263,9 @@ Definition oracle_of (shf : bool -> N -> N) (c : list block) : bool -> N -> bool
   fun br i => pays_any c (shf br i).
 
 (* WalletManager.NewAddress *)
-Definition new_address (shf : bool -> N -> N) (gap : N) (used : bool -> N -> bool) (cls : bool) (w : wal)
+Definition new_address (shf : bool -> N -> N) (fx : bool) (gap : N) (used : bool -> N -> bool) (cls : bool) (w : wal)
   : kres ((bool * N) * wal) :=
-  match next_addresses gap used (w_ks w) with
+  match next_addresses fx gap used (w_ks w) with
   | KErr e => KErr e
   | KOk (i, ks') => KOk ((cls, i), {| w_ks := ks'; w_recs := rec_put (w_recs w) cls (shf false i) 0 |})
   end.
@@ -264,12 +274,12 @@ Definition new_address (shf : bool -> N -> N) (gap : N) (used : bool -> N -> boo
    gap - maxun is a uint32 subtraction converted to int *)
 Definition unused_count (l : list aentry) : N := N.of_nat (length (filter (fun e => negb (ae_used e)) l)).
 
-Definition api_create_address (shf : bool -> N -> N) (gap maxun : N) (used : bool -> N -> bool) (cls : bool) (w : wal)
+Definition api_create_address (shf : bool -> N -> N) (fx : bool) (gap maxun : N) (used : bool -> N -> bool) (cls : bool) (w : wal)
   : kres ((bool * N) * wal) :=
   let count := unused_count (listing (if cls then 1 else 0) (w_recs w)) in
   if cls && (maxun <=? count) then KErr EUnusedLimit
   else if negb cls && (u32 (gap + two32 - maxun) <=? count) then KErr EUnusedLimit
-  else new_address shf gap used cls w.
+  else new_address shf fx gap used cls w.
 
 Definition wal_reload (w : wal) : wal := {| w_ks := ks_reload (w_ks w); w_recs := w_recs w |}.
 
@@ -310,11 +320,11 @@ Record rstate := {
   r_issued : list (bool * N)                 (* successful requests, newest first *)
 }.
 
-Definition rstep (shf : bool -> N -> N) (gap maxun : N) (s : rstate) (e : ev) : rstate :=
+Definition rstep (shf : bool -> N -> N) (fx : bool) (gap maxun : N) (s : rstate) (e : ev) : rstate :=
   match e with
   | ENew cls api node =>
-      match (if api then api_create_address shf gap maxun (oracle_of shf node) cls (r_wal s)
-             else new_address shf gap (oracle_of shf node) cls (r_wal s)) with
+      match (if api then api_create_address shf fx gap maxun (oracle_of shf node) cls (r_wal s)
+             else new_address shf fx gap (oracle_of shf node) cls (r_wal s)) with
       | KOk (a, w') => {| r_wal := w'; r_chain := r_chain s; r_issued := a :: r_issued s |}
       | KErr _ => s
       end
@@ -324,8 +334,8 @@ Definition rstep (shf : bool -> N -> N) (gap maxun : N) (s : rstate) (e : ev) : 
 
 Definition rinit (genesis : block) : rstate := {| r_wal := wal_empty; r_chain := [genesis]; r_issued := [] |}.
 
-Definition rrun (shf : bool -> N -> N) (gap maxun : N) (genesis : block) (h : list ev) : rstate :=
-  fold_left (rstep shf gap maxun) h (rinit genesis).
+Definition rrun (shf : bool -> N -> N) (fx : bool) (gap maxun : N) (genesis : block) (h : list ev) : rstate :=
+  fold_left (rstep shf fx gap maxun) h (rinit genesis).
 
 (* ---------------------------------------------------------------- issuing seen through oracles only *)
 
